@@ -178,3 +178,121 @@ def show_res(r):
 
 
 CHECKS = {'C26': C26}
+
+
+# ================================================================================================
+# C27: the file persister survives a crash at every write/seek of every generated history
+# ================================================================================================
+class C27:
+    id = 'C27'
+    level = 'fault_enumeration'
+    build = [('asan', 'fx')]
+    workers = 8
+    examples = 400
+    assumptions = ['a crash is the death of the process right after a completed write() or lseek() system call on one of the persister\'s two files (the executable routes both calls '
+                   'through counting wrappers; a forked child _exit()s at the chosen point); what was written by completed system calls is on disk, nothing else is (no torn writes, no '
+                   'reordering by the file system)',
+                   'for each generated history EVERY crash point is enumerated (the dry run counts them); histories: 1-8 store operations with distinct sequence numbers, message sizes '
+                   '0-300 bytes over all byte values, control stores anywhere - including none in front of the first message',
+                   'the operation in flight at the crash may be visible or not after the reopen (its own bytes or nothing; the old or the new control record)',
+                   'after the reopen 1-3 further stores (fresh numbers) are made, the store is closed and reopened again and everything is read back']
+    rule = ('Hypothesis draws a history of message and control stores and a post-crash history; the executor enumerates every crash point k of the history (after each completed write/seek). '
+            'For each k a model of the completed operations decides: every completed message store is read back byte-identical after the reopen, the number in flight returns its own bytes or '
+            'nothing, every other number returns nothing, the control record equals the last completed control store (or the one in flight), the further stores succeed and everything is '
+            'still there after a second reopen. evaluations = crash runs; non-trivial = a crash inside an operation (not on its last system call) of a history with >= 2 operations.')
+
+    def __init__(self, tier):
+        self.tier = tier
+        if tier == 'thorough':
+            self.examples = 20000
+            self.workers = 16
+
+    def make_executor(self):
+        return Executor(timeout=240.0)
+
+    def strategy(self):
+        data = st.one_of(st_bytes(), st.binary(min_size=0, max_size=300))
+        pre = st.lists(st.one_of(st.tuples(st.just('P'), st.integers(1, 12), data), st.tuples(st.just('P'), st.integers(1, 12), data),
+                                 st.tuples(st.just('C'), st.integers(0, 2 ** 32 - 1), st.integers(0, 2 ** 32 - 1))), min_size=1, max_size=8)
+        post = st.lists(st.one_of(st.tuples(st.just('P'), st.integers(20, 26), data), st.tuples(st.just('C'), st.integers(0, 5000), st.integers(0, 5000))), min_size=1, max_size=3)
+        return st.fixed_dictionaries({'pre': pre, 'post': post}).map(self.norm)
+
+    @staticmethod
+    def norm(c):
+        def dedup(ops):
+            seen, out = set(), []
+            for o in ops:
+                if o[0] == 'P':
+                    if o[1] in seen or len(o[2]) > 300:
+                        continue
+                    seen.add(o[1])
+                    out.append(['P', o[1], o[2].hex()])
+                else:
+                    out.append(['C', o[1], o[2]])
+            return out
+        return {'pre': dedup(c['pre']), 'post': dedup(c['post'])}
+
+    def run(self, case, ex):
+        pre, post = case['pre'], case['post']
+        if not pre:
+            return {}
+        tok = lambda o: ('P%d:%s' % (o[1], o[2] or '-')) if o[0] == 'P' else 'C%d:%d' % (o[1], o[2])
+        a = ex.call('crash %s | %s' % (' '.join(map(tok, pre)), ' '.join(map(tok, post))), timeout=230)
+        hist = ' '.join(show_tok(tok(o)) for o in pre)
+        n = a['n']
+        self.points = getattr(self, 'points', 0) + n
+        inside = 0
+        for r in a['runs']:
+            k, done = r['k'], r['done']
+            desc = 'history [%s], crash after completed write/seek #%d of %d (%d operations had returned), then [%s]' % (hist, k, n, done, ' '.join(show_tok(tok(o)) for o in post))
+
+            def fail(msg):
+                raise Violation('C27: %s\n %s\n observed: %s' % (msg, desc, show_res(r)))
+            store, control = {}, None
+            for o in pre[:done]:
+                if o[0] == 'P': store[o[1]] = o[2]
+                else: control = (o[1], o[2])
+            fl = pre[done] if done < len(pre) else None
+            if not r['open']:
+                fail('the store cannot be reopened after the crash')
+            if r['rc'] not in (0, 1):
+                fail('the child did not end at the crash point (exit status %s)' % r['rc'])
+
+            def check_reads(reads, ctrl, store, control, fl, when):
+                for s, (ok, v) in reads.items():
+                    s = int(s)
+                    if s in store:
+                        if not ok or v != store[s]:
+                            fail('%s: message %d, whose store had completed, is %s' % (when, s, 'missing' if not ok else 'returned with other bytes (%d bytes instead of %d)' % (len(v) // 2, len(store[s]) // 2)))
+                    elif fl is not None and fl[0] == 'P' and fl[1] == s:
+                        if ok and v != fl[2]:
+                            fail('%s: message %d (in flight at the crash) returns bytes that were never stored for it' % (when, s))
+                    elif ok:
+                        fail('%s: number %d, for which nothing was stored, returns %d bytes' % (when, s, len(v) // 2))
+                allowed = [control] + ([(fl[1], fl[2])] if fl is not None and fl[0] == 'C' else [])
+                got = (ctrl[1], ctrl[2]) if ctrl[0] else None
+                if got not in allowed:
+                    fail('%s: control record is %s, last completed control store %s%s' % (when, got, control, '' if len(allowed) == 1 else ' (in flight: %s)' % (allowed[1],)))
+                return got
+            c_after = check_reads(r['r1'], r['c1'], store, control, fl, 'after the reopen')
+            if not all(r['post']):
+                fail('a store after the reopen was refused: %s' % r['post'])
+            store2 = dict(store)
+            control2 = c_after
+            for o in post:
+                if o[0] == 'P': store2[o[1]] = o[2]
+                else: control2 = (o[1], o[2])
+            if not r['open2']:
+                fail('the store cannot be reopened after the post-crash stores')
+            fl2 = fl if (fl is not None and fl[0] == 'P') else None
+            check_reads(r['r2'], r['c2'], store2, control2, fl2, 'after the second reopen')
+            if fl is not None:
+                inside += 1
+        return {'nontrivial': inside >= 1 and len(pre) >= 2, 'classes': ['ops:%d' % len(pre), 'message_first' if pre[0][0] == 'P' else 'control_first'],
+                'key': case, 'sample': {'history': hist, 'crash_points': n, 'post': [show_tok(tok(o)) for o in post]}}
+
+    def finish(self, stats):
+        stats.extra['crash_runs'] = getattr(self, 'points', 0)
+
+
+CHECKS['C27'] = C27
